@@ -394,3 +394,13 @@ Example ex_newer_referral_is_followed :
   m_srv (search_cache (st_dc st) (20 * s) [1;9]%N false) = 2%N /\
   option_map d_exp (st_dc st [1%N]) = Some (110 * s).
 Proof. vm_compute. repeat split; reflexivity. Qed.
+
+(* non-vacuity of [derived_denial_dies_with_lease]: a zone delegated for 30 s whose signed denial allows 300 s - what
+   the derived stores file under the tree that learned it ends with the 30 s; without any cut it would live the 300 s *)
+Example ex_derived_end :
+  let s := 1000000000 in
+  let st := run code_fx [ASeed 0 0 [1;2]%N false 0;
+                         ARefer 0 (mk_ref [1%N] 1 true 30 (Some 3600) true 0 false 0 [] false true true 0)] st_init in
+  derived_end st 0%N 0 (300 * s) = 30 * s /\ mt_lin (st_meta st 0%N) <> [] /\
+  derived_end st_init 0%N 0 (300 * s) = 300 * s.
+Proof. vm_compute. repeat split. discriminate. Qed.
